@@ -808,16 +808,19 @@ pub fn c18_child_main() -> i32 {
     let (accounts, items) = c18_corpus(&mut t);
     let accounts = Arc::new(accounts);
     let items = Arc::new(items);
-    let barrier = Arc::new(std::sync::Barrier::new(4));
+    let barrier = Arc::new(std::sync::Barrier::new(8));
     let mut hs = Vec::new();
-    for k in 0..4usize {
+    for k in 0..8usize {
         let (a, it, b) = (accounts.clone(), items.clone(), barrier.clone());
         hs.push(std::thread::spawn(move || {
             b.wait();
             let mut v = Vec::new();
-            for i in 0..it.len() {
-                let j = (i + k) % it.len();
-                v.push((j, eval_item(&a, &it[j]).0));
+            // first use contended, then a short hammer: 40 rounds over the corpus
+            for round in 0..40 {
+                for i in 0..it.len() {
+                    let j = (i + k + round) % it.len();
+                    v.push((j, eval_item(&a, &it[j]).0));
+                }
             }
             v
         }));
@@ -944,6 +947,72 @@ fn run_c18(t: &mut Tape, tier: Tier) -> RunOut {
         h = fnv(h, &[*th, site.len() as u8]);
     }
     out.interleaving = h;
+    // (6) reentrancy on one thread: all corpus items in flight at once as tasks of one executor,
+    // each suspended 1-3 times in its provider, interleaved by the tape
+    {
+        let shared = Arc::new(Mutex::new(libi::Shared::new(accounts.clone(), 0)));
+        let mut tasks = Vec::new();
+        let mut ok = true;
+        for (i, it) in items.iter().enumerate() {
+            let mut sc = it.script.clone();
+            sc.answer_pending = 1 + t.below(3) as u32;
+            sc.ready_pending = t.below(2) as u32;
+            shared.lock().unwrap().scripts.push(sc);
+            match it.wire.to_request() {
+                Ok(req) => tasks.push(vec![libi::Job {
+                    req,
+                    node: it.node.clone(),
+                    now_ns: it.now_ns,
+                    val: i,
+                }]),
+                Err(_) => ok = false,
+            }
+        }
+        if ok {
+            let rep = libi::run_tasks(&shared, tasks, libi::ExecPolicy {
+                spurious_one_in: 8,
+                cancel_one_in: 0,
+                step_cap: 4000,
+            }, t);
+            out.deliveries += rep.outs.len() as u64;
+            for (i, o) in rep.outs.iter().enumerate() {
+                let r = outcome_signature(o);
+                compare(&mut out, "interleaved with the other validations on one thread (suspended in the provider)", i, &r);
+            }
+            out.probe("async_interleaved_same_thread");
+        }
+    }
+    // (7) real parallelism (not schedule-controlled: the assertion holds for every schedule, a
+    // failure is re-found by re-running, see DESIGN §4 C18): 4 threads × 3 rounds over the corpus
+    {
+        let mut hs = Vec::new();
+        for k in 0..4usize {
+            let (a, its, seed) = (accounts.clone(), items.clone(), t.u64());
+            hs.push(std::thread::spawn(move || {
+                hashseed::set_thread_hash_seed(seed);
+                let mut v = Vec::new();
+                for round in 0..3 {
+                    for i in 0..its.len() {
+                        let j = (i + k + round) % its.len();
+                        v.push((j, eval_item(&a, &its[j])));
+                    }
+                }
+                v
+            }));
+        }
+        for h in hs {
+            match h.join() {
+                Ok(rs) => {
+                    out.deliveries += rs.len() as u64;
+                    for (i, r) in rs {
+                        compare(&mut out, "4 threads in real parallel", i, &r);
+                    }
+                }
+                Err(_) => out.violate("C18", "same-outcome-on-repetition", "a validating thread panicked under real parallelism".into()),
+            }
+        }
+        out.probe("real_parallel_threads");
+    }
     // (4) fresh processes with real hash keys and contended first use (a fraction of the runs)
     let fresh_one_in = if tier == Tier::Thorough {
         40
@@ -1247,7 +1316,7 @@ pub fn registry() -> Vec<Profile> {
             id: "C18",
             title: "deterministic and reentrant",
             run: run_c18,
-            required: &["corpus_accepted", "corpus_refused", "repeated_same_incarnation", "hash_incarnations", "thread_engine_runs", "fresh_process", "first_use_contended"],
+            required: &["corpus_accepted", "corpus_refused", "repeated_same_incarnation", "hash_incarnations", "thread_engine_runs", "fresh_process", "first_use_contended", "async_interleaved_same_thread", "real_parallel_threads"],
             rule: "per run a corpus of 3-8 deliveries (valid and defective at every rule, both carriers, folding) with fixed node, instant and provider answer is evaluated single-threaded (golden), again in the same incarnation, under 2-5 other tape-chosen hash seeds, by 2-8 (thorough: 2-16) real OS threads under the baton scheduler (one runnable thread at a time, seeded hand-off at every log record and provider seam), and in a fraction of runs in a fresh process with real hash keys whose first use of every lazy global happens with four threads released together; outcome signature = Ok + returned request and identity, or (kind, code, status, message class); distinct interleavings = distinct hashes of the baton hand-off trace",
             quick_secs: 30,
             thorough_secs: 420,
